@@ -45,7 +45,7 @@ Fixpoint bind_formals (fs args : list sexp) : option (list (sexp * sexp)) :=
   | _ :: _, _ :: _ => None
   end.
 
-(* get_defined_fun for a node whose name is defined by d *)
+(* get_defined_fun for a node whose name is defined by d (after the fix of F19: capture guard) *)
 Definition instantiate (d : defn) (e : sexp) : option sexp :=
   match e with
   | L _ => Some (d_body d)
@@ -53,7 +53,14 @@ Definition instantiate (d : defn) (e : sexp) : option sexp :=
       if Nat.eqb (length (d_formals d)) (length args) then
         match bind_formals (d_formals d) args with
         | Some [] => Some (d_body d)            (* substitute with an empty map returns its argument *)
-        | Some m => Some (subst_map m (d_body d))
+        | Some m =>
+            (* smtlib.__instantiate: no instantiation (the node itself is returned) if a binder within the body binds
+               a formal parameter again or would capture a symbol of an actual argument *)
+            let bound := bound_syms (d_body d) in
+            if existsb (fun f => mem_sexp f bound) (map fst m)
+               || existsb (fun n => is_leaf n && mem_sexp n bound) (flat_map subterms args)
+            then Some e
+            else Some (subst_map m (d_body d))
         | None => None
         end
       else Some e
